@@ -97,6 +97,8 @@ class Setup:
                 pass
         self.net = simnet.Net(rng)
         mining.time = self.net.clock
+        clk = self.net.clock
+        mining.sleep = lambda seconds, _c=clk: setattr(_c, "t", _c.t + 1)     # waiting lets the virtual clock move on
         head = world.chain.blocks[world.cs.current_chain_hash]
         self.net.clock.t = head.ts + 50
         self.node = self.net.add_node("M", ("10.0.0.2", 2412), world.cs, Disk())
@@ -174,6 +176,45 @@ class Setup:
         mon, c, mw, node, world = self.mon, self.mon.c, self.mw, self.node, self.world
         cm = node.lp.chain_manager
         start = self.rng.randrange(1 << 31)
+        # sometimes a peer's block becomes the head between two work requests, stamped AHEAD of this node's clock (allowed up
+        # to 30 s).  The very first candidate after that is the interesting one; the harness tries that first request with
+        # many nonces (each an execution the real miner could have had), restoring the watcher's view before every try
+        if self.peers and self.rng.random() < 0.25:
+            head_id = cm.coinstate.current_chain_hash
+            if head_id in world.chain.blocks:
+                try:
+                    par = world.chain.blocks[head_id]
+                    ts = max(par.ts + 1, self.net.clock.t + self.rng.choice([0, 1, 10, 29]))
+                    rbB, realB = world.assemble(head_id, [], ts, world.keys[0][1], route="ref")
+                    self.rng.choice(self.peers).push(self.wire.block(realB))
+                    self.net.settle(node)
+                    moved = cm.coinstate.current_chain_hash == rbB.id()
+                except Exception:
+                    moved = False
+                if moved:
+                    world.cs = world.cs.add_block_no_validation(realB)
+                    world.accept(rbB, realB, cs=world.cs)
+                    stale = mw.coinstate
+                    c["head_moved_ahead_of_clock_between_requests"] = c.get("head_moved_ahead_of_clock_between_requests", 0) + 1
+                    for k in range(4000):
+                        mw.coinstate = stale
+                        mw.send_queues[0].items.clear()
+                        try:
+                            quiet(mw.handle_request_scrypt_input_message, 0, (start + k) & 0xFFFFFFFF)
+                        except Exception as e:
+                            mon.v("miner-cannot-assemble-candidate", "the miner's front end raised %r on the first request after a peer's "
+                                  "block became the head" % (e,), dict(w_base, chain=gen.blocks_hex(world, world.chain.order[1:])))
+                            return False
+                        kind, (summary, height) = mw.send_queues[0].items[-1]
+                        summary_hash = cons.construct_summary_hash(summary, height)
+                        s2, h2, txs = mw.mining_args[0]
+                        evidence = cons.construct_pow_evidence_after_scrypt(summary_hash, mw.coinstate, s2, h2, txs)
+                        cand = Block(BlockHeader(s2, evidence), txs)
+                        c["candidates"] += 1
+                        if cand.hash() < cand.target:
+                            self.late_sibling = False
+                            c["first_candidates_after_head_change_found"] = c.get("first_candidates_after_head_change_found", 0) + 1
+                            return self.judge_found(cand, summary_hash, w_base)
         for k in range(20000):
             nonce = (start + k) & 0xFFFFFFFF
             if k % 37 == 36:
@@ -508,6 +549,7 @@ def finalize(m, tier):
                    ("found_while_other_thread_flushes", c.get("found_while_other_thread_flushes", 0), 30),
                    ("found_while_a_connection_is_half_dropped", c.get("found_while_a_connection_is_half_dropped", 0), 20),
                    ("conflicting_offers_to_the_pool", c.get("conflicting_offers_to_the_pool", 0), 40),
-                   ("found_after_the_head_moved", c.get("found_after_the_head_moved", 0), 10)],
+                   ("found_after_the_head_moved", c.get("found_after_the_head_moved", 0), 10),
+                   ("first_candidates_after_head_change_found", c.get("first_candidates_after_head_change_found", 0), 20)],
         "extra": {},
     }
